@@ -70,29 +70,34 @@ def build_coq():
 
 
 def prop_obligations(prop):
-    """Re-check Prop<id>.v on its own and read the Print Assumptions answers."""
-    src = os.path.join(COQ, "Prop%s.v" % prop)
-    if not os.path.exists(src):
+    """Re-check every Prop<id>*.v on its own and read the Print Assumptions answers."""
+    import glob
+    files = sorted(glob.glob(os.path.join(COQ, "Prop%s*.v" % prop)))
+    files = [f for f in files if re.match(r"Prop%s[a-z]?\.v$" % prop, os.path.basename(f))]
+    if not files:
         return dict(obligations=0, discharged=0, theorems=[], axioms=[], checker_cmd="")
-    text = open(src).read()
-    names = re.findall(r"^(?:Theorem|Example|Lemma|Corollary)\s+([A-Za-z0-9_']+)", text, re.M)
-    for bad in ("Admitted", "admit.", "Axiom ", "Parameter ", "Conjecture "):
-        if re.search(r"(^|\s)" + re.escape(bad), re.sub(r"\(\*.*?\*\)", "", text, flags=re.S)):
-            raise SystemExit("BROKEN: %s contains %s" % (src, bad))
-    cmd = "coqc -Q . TV Prop%s.v" % prop
-    with Lock("coq"):
-        rc, out = sh("timeout 900 " + cmd, cwd=COQ, check=False)
-    if rc != 0:
-        sys.stdout.write(out[-4000:])
-        raise SystemExit("BROKEN: %s does not compile" % src)
-    closed = out.count("Closed under the global context")
-    axioms = re.findall(r"^Axioms:\n((?:.+\n)+)", out, re.M)
-    asked = len(re.findall(r"^Print Assumptions", text, re.M))
-    if axioms or closed != asked:
-        sys.stdout.write(out[-4000:])
-        raise SystemExit("BROKEN: a property theorem of %s depends on axioms" % prop)
+    names, cmds, closed_all, asked_all = [], [], 0, 0
+    for src in files:
+        text = open(src).read()
+        names += re.findall(r"^(?:Theorem|Example|Lemma|Corollary)\s+([A-Za-z0-9_']+)", text, re.M)
+        for bad in ("Admitted", "admit.", "Axiom ", "Parameter ", "Conjecture "):
+            if re.search(r"(^|\s)" + re.escape(bad), re.sub(r"\(\*.*?\*\)", "", text, flags=re.S)):
+                raise SystemExit("BROKEN: %s contains %s" % (src, bad))
+        cmd = "coqc -Q . TV %s" % os.path.basename(src)
+        with Lock("coq"):
+            rc, out = sh("timeout 900 " + cmd, cwd=COQ, check=False)
+        if rc != 0:
+            sys.stdout.write(out[-4000:])
+            raise SystemExit("BROKEN: %s does not compile" % src)
+        closed = out.count("Closed under the global context")
+        axioms = re.findall(r"^Axioms:\n((?:.+\n)+)", out, re.M)
+        asked = len(re.findall(r"^Print Assumptions", text, re.M))
+        if axioms or closed != asked:
+            sys.stdout.write(out[-4000:])
+            raise SystemExit("BROKEN: a property theorem of %s depends on axioms" % prop)
+        cmds.append(cmd); closed_all += closed; asked_all += asked
     return dict(obligations=len(names), discharged=len(names), theorems=names, axioms=[],
-                checker_cmd="cd coq && make -j16 && " + cmd + "   (Print Assumptions: %d/%d closed)" % (closed, asked))
+                checker_cmd="cd coq && make -j16 && " + " && ".join(cmds) + "   (Print Assumptions: %d/%d closed)" % (closed_all, asked_all))
 
 
 def build_driver():
